@@ -59,6 +59,10 @@ class World(object):
     self.full_pipeline = full_pipeline
     self.root = None
     if full_pipeline:
+      if self.settings.RELAY_CACHE_METRICS:
+        from vlib import fakereactor
+        import carbon.client as client
+        client.reactor = fakereactor.FakeReactor()     # the relay part of a cache daemon never connects here
       from carbon import service
       from twisted.application.service import MultiService
       self.root = MultiService()
@@ -102,7 +106,7 @@ class World(object):
     # fresh daemon state
     cc._Cache = None
     cache = cc.MetricCache()
-    lock = S.SchedLock(sc)
+    lock = S.SchedLock(sc, reentrant=(type(cache.lock).__name__ == 'RLock'))
     cache.lock = lock
     state.cacheTooFull = False
     state.metricReceiversPaused = False
@@ -130,6 +134,11 @@ class World(object):
       writer.tagQueue.update_queue.get_nowait()
     if self.full_pipeline:
       state.pipeline_processors[:] = [cc.CacheFeedingProcessor()]
+      if state.pipeline_processors_generated:
+        state.pipeline_processors_generated[:] = [cc.CacheFeedingProcessor()]
+      if state.client_manager is not None:           # RELAY_CACHE_METRICS: nothing may be carried over between runs
+        for f in state.client_manager.client_factories.values():
+          f.queue.clear()
     log_err0 = len(self.ns.tripwires.log_errors)
     h.cache = cache
     h.stores, h.drains, h.queries, h.exceptions = [], [], [], []
@@ -345,6 +354,10 @@ class World(object):
           p.verif_connected_while_paused = bool(state.metricReceiversPaused)
           p.verif_state_after_connect = p.transport.producerState
           protos.append(p)
+        elif k == 'relaybuf':     # RELAY_CACHE_METRICS: a self-metric is handed to the relay manager (no destination is up)
+          if state.client_manager is not None:
+            vcount[0] += 1
+            state.client_manager.sendDatapoint('carbon.agents.self.m%d' % (vcount[0] % 3), (999900, float(vcount[0])))
         elif k == 'disconnect':   # a client goes away
           if len(protos) > 1:
             from twisted.internet.error import ConnectionDone
